@@ -514,9 +514,15 @@ def run_sched(case):
         p = psutil.Process(PID)
         p._lock = detsched.CoopLock(sched)
 
+        # blocks opened by the *other* threads (their own oneshot() /
+        # as_dict()): the object's cache may have been activated - and
+        # filled - by any of them, so a call made while one is open may be
+        # served with what that block read first
+        open_blocks = {}
+
         def timed_call(tidx, m, in_block):
             v_start = version[0]
-            lo = v_start
+            lo = min([v_start] + list(open_blocks.values()))
             if block["active_since"] is not None:
                 lo = min(lo, block["active_since"])
             try:
@@ -524,6 +530,7 @@ def run_sched(case):
             except BaseException as e:  # noqa: BLE001
                 out = ("raised", e)
             hi = version[0]
+            lo = min([lo] + list(open_blocks.values()))
             if block["active_since"] is not None:
                 lo = min(lo, block["active_since"])
             records.append((tidx, m, lo, hi, out))
@@ -558,13 +565,20 @@ def run_sched(case):
             def run():
                 for m in calls:
                     if m == "block:as_dict":
+                        open_blocks[(i, "as_dict")] = version[0]
                         try:
                             p.as_dict(attrs=["name", "status"])
                         except psutil.Error:
                             pass
+                        finally:
+                            open_blocks.pop((i, "as_dict"), None)
                     elif m.startswith("block:"):
-                        with p.oneshot():
-                            timed_call(i, m.split(":", 1)[1], False)
+                        open_blocks[(i, "oneshot")] = version[0]
+                        try:
+                            with p.oneshot():
+                                timed_call(i, m.split(":", 1)[1], False)
+                        finally:
+                            open_blocks.pop((i, "oneshot"), None)
                     else:
                         timed_call(i, m, False)
             return run
